@@ -340,7 +340,7 @@ func (e *Engine) scanDirectives() error {
 					switch {
 					case strings.HasPrefix(txt, "verif:stub "):
 						target := strings.TrimSpace(strings.TrimPrefix(txt, "verif:stub "))
-						tf := e.funcByName(target)
+						tf := e.funcByName(strings.TrimSuffix(target, "?"))
 						if tf == nil {
 							// optional targets may be absent from the program (not reachable): ignore
 							if !strings.HasSuffix(target, "?") {
